@@ -1,3 +1,6 @@
+#[cfg(grevm_verif)]
+use grevm_verif_rt::sync::atomic::{AtomicUsize, Ordering};
+#[cfg(not(grevm_verif))]
 use std::sync::atomic::{AtomicUsize, Ordering};
 
 /// A monotonic cursor published by one scheduler coordinator.
